@@ -113,3 +113,7 @@ package control
 //@ requires_held region.shouldBeInControl . R
 //@ requires_held Controller.unsafeInsertNewRegion mu W
 //@ lock_order Controller.mu < region
+
+//@ # exported views of a gate for callers in other packages
+//@ spec func SpecGateOK[R Resource](g *Gate[R]) bool = g != nil && g.region != nil && (g.region.curr == nil || g.region.controller != nil)
+//@ spec func SpecGateResource[R Resource](g *Gate[R]) R = g.region.resource
